@@ -93,7 +93,7 @@ CORPUS = [
 ]
 
 if __name__ == "__main__":
-    run_builder_check(PID, gen_cases, oracle, fields=None, truncate_at_leak=True, corpus=CORPUS,
+    run_builder_check(PID, gen_cases, oracle, fields=None, truncate_at_leak=True, after_leak_signature="after-C05-leak", corpus=CORPUS,
                       rule="weighted grammar over the full builder API (moves with F/S/E/A words, probes, feed/power/fan/"
                            "temperature setters, tool/power/coolant/tool-change/halt family, all modal switches), numeric "
                            "arguments from a finite grid {0, 1/2, 50, 100, 255, 1000, ...} plus random dyadics; equality "
